@@ -89,18 +89,30 @@ func gen(t *rapid.T) Case {
 	}
 	c.Prefix = rapid.OneOf(rapid.Just(pbt.S("")), nm).Draw(t, "prefix")
 	c.Sep = rapid.OneOf(rapid.Just(pbt.S("")), rapid.Just(pbt.S(".")), rapid.Just(pbt.S("_")), rapid.Just(pbt.S("::")), rapid.Just(pbt.S("→")), nm).Draw(t, "sep")
-	c.RootTags = dedupe(pbt.MapOf(ky, vl, 3).Draw(t, "rootTags"), mo)
+	// a fifth of the cases are "wide": up to 10 root tags and up to 10 tags per Tagged call (the key
+	// writer and the merge have size-dependent paths that three or four tags never reach)
+	wide := rapid.IntRange(0, 4).Draw(t, "wide") == 0
+	maxTags := 3
+	if wide {
+		maxTags = 10
+	}
+	c.RootTags = dedupe(pbt.MapOf(ky, vl, maxTags).Draw(t, "rootTags"), mo)
 	c.RootMutate = rapid.IntRange(0, 3).Draw(t, "rootMutate")
 	n := rapid.IntRange(0, 6).Draw(t, "nsteps")
 	// a small pool of keys so that re-tagging the same key happens
-	keyPool := rapid.SliceOfN(ky, 1, 3).Draw(t, "keyPool")
+	keyPool := rapid.SliceOfN(ky, 1, maxTags).Draw(t, "keyPool")
+	for k := range c.RootTags {
+		if len(keyPool) < 2*maxTags && rapid.Bool().Draw(t, "rootKeyInPool") {
+			keyPool = append(keyPool, k) // re-tagging a key the root already carries
+		}
+	}
 	for i := 0; i < n; i++ {
 		if rapid.IntRange(0, 2).Draw(t, "isSub") == 0 {
 			s := nm.Draw(t, "sub")
 			c.Steps = append(c.Steps, Step{Sub: &s})
 		} else {
 			m := pbt.M{}
-			k := rapid.IntRange(0, 3).Draw(t, "ntags")
+			k := rapid.IntRange(0, maxTags).Draw(t, "ntags")
 			for j := 0; j < k; j++ {
 				if rapid.Bool().Draw(t, "fromPool") {
 					m[rapid.SampledFrom(keyPool).Draw(t, "pk")] = vl.Draw(t, "v")
